@@ -169,6 +169,33 @@ def show_key_sym(k):
     return str(k)
 
 
+def replace_bound(v, repl):
+    """substitute the comprehension's bound variable inside a value"""
+    if isinstance(v, Sym):
+        if v.key == ("bound",):
+            return repl
+        return Sym(_rb_key(v.key, repl))
+    if isinstance(v, RF):
+        mp = {}
+        for a in v.atoms():
+            if a[0] in ("fr", "nn") and isinstance(a[1], Sym):
+                mp[a] = RF.atom((a[0], replace_bound(a[1], repl)))
+        return v.subst(mp) if mp else v
+    if isinstance(v, tuple):
+        return tuple(replace_bound(x, repl) for x in v)
+    if isinstance(v, ListV):
+        return ListV([replace_bound(x, repl) for x in v.items])
+    if isinstance(v, DictV):
+        return DictV([(k, replace_bound(x, repl)) for k, x in v.items])
+    return v
+
+
+def _rb_key(k, repl):
+    if isinstance(k, tuple):
+        return tuple(_rb_key(x, repl) if isinstance(x, tuple) else replace_bound(x, repl) for x in k)
+    return k
+
+
 def to_num(v):
     """numeric view of a value (symbols are promoted to free atoms)"""
     if isinstance(v, RF):
@@ -365,6 +392,10 @@ class Summarizer:
             return r
         if isinstance(n, (ast.Import, ast.ImportFrom, ast.Global, ast.Nonlocal)):
             return [(st, None)]
+        if isinstance(n, ast.Continue):
+            return [(st, ("continue", None, n.lineno))]
+        if isinstance(n, ast.Break):
+            return [(st, ("break", None, n.lineno))]
         if isinstance(n, ast.Delete):
             for t in n.targets:
                 st.events.append(("del", self.target_key(t, st), n.lineno))
@@ -570,6 +601,9 @@ class Summarizer:
             r = base.get(vkey(idx))
             if r is not None:
                 return r
+        if isinstance(base, Sym) and isinstance(base.key, tuple) and base.key and base.key[0] == "listcomp":
+            # [f(x) for x in it][i]  ==  f(it[i])
+            return replace_bound(base.key[1], self.subscript(base.key[2], idx))
         return Sym(("sub", vkey(base), vkey(idx)))
 
     def binop(self, op, a, b):
@@ -725,6 +759,10 @@ class Summarizer:
             return a.f if b else Not(a.f)
         if isinstance(b, BoolV) and isinstance(a, bool):
             return b.f if a else Not(b.f)
+        if isinstance(a, Sym) and isinstance(b, bool):
+            return self.truthy(a) if b else Not(self.truthy(a))
+        if isinstance(b, Sym) and isinstance(a, bool):
+            return self.truthy(b) if a else Not(self.truthy(b))
         if isinstance(a, (ListV, DictV, tuple)) and isinstance(b, (ListV, DictV, tuple)) and not self._has_sym(a) and not self._has_sym(b):
             return vkey(a) == vkey(b)
         f = self.h.equal(a, b) if hasattr(self.h, "equal") else None
